@@ -920,4 +920,14 @@ theorem consumeValueUntil_stops (env : Env) (types : List String) (tys : List St
               exact hw
             · rw [hres, List.map_append, hmore]; simp [CTok.tv, Tok.tv, hty, hval]
 
+theorem Yields.cons_inv {cfg : LexCfg} {b b' : Buf} {t : Tok} {ts : List Tok} (h : Yields cfg b (t :: ts) b') :
+    ∃ b1, tokenEofOk cfg b = .ok (some t, b1) ∧ Yields cfg b1 ts b' := by
+  cases h with
+  | cons h1 h2 => exact ⟨_, h1, h2⟩
+
+theorem Yields.single_inv {cfg : LexCfg} {b b' : Buf} {t : Tok} (h : Yields cfg b [t] b') :
+    tokenEofOk cfg b = .ok (some t, b') := by
+  cases h with
+  | cons h1 h2 => cases h2; exact h1
+
 end Cxx
